@@ -1146,6 +1146,18 @@ impl FatVolume {
         };
         // This new cluster is the end of the file's chain
         self.update_fat(block_cache, new_cluster, ClusterId::END_OF_FILE)?;
+        if zero {
+            // Blank the cluster *before* it becomes reachable through the
+            // chain: otherwise an interruption would expose whatever the
+            // cluster held before as directory entries.
+            let start_block_idx = self.cluster_to_block(new_cluster);
+            let num_blocks = BlockCount(u32::from(self.blocks_per_cluster));
+            for block_idx in start_block_idx.range(num_blocks) {
+                trace!("Zeroing cluster {:?}", block_idx);
+                let _block = block_cache.blank_mut(block_idx);
+                block_cache.write_back()?;
+            }
+        }
         // If there's something before this new one, update the FAT to point it at us
         if let Some(cluster) = prev_cluster {
             trace!(
@@ -1185,15 +1197,6 @@ impl FatVolume {
             // the stored count is only a hint and may be stale (even zero)
             *number_free_cluster = number_free_cluster.saturating_sub(1);
         };
-        if zero {
-            let start_block_idx = self.cluster_to_block(new_cluster);
-            let num_blocks = BlockCount(u32::from(self.blocks_per_cluster));
-            for block_idx in start_block_idx.range(num_blocks) {
-                trace!("Zeroing cluster {:?}", block_idx);
-                let _block = block_cache.blank_mut(block_idx);
-                block_cache.write_back()?;
-            }
-        }
         debug!("All done, returning {:?}", new_cluster);
         Ok(new_cluster)
     }
